@@ -4,6 +4,8 @@ import (
 	"fmt"
 	"go/ast"
 	"go/token"
+	"path/filepath"
+	"sort"
 	"go/types"
 	"strings"
 
@@ -274,6 +276,9 @@ func runEncoding(e *Enc, fn *ssa.Function, props []string) {
 	for i, r := range f.rets {
 		env := entryEnv(r.state, e.oldState)
 		bindResultNames(env, fn, r.results)
+		// locals of the function may be named in postconditions (value at this return)
+		retIdx := len(r.instr.Block().Instrs) - 1
+		env.lookup = f.resolverAtPoint(r.instr.Block(), retIdx, nil, r.state)
 		if sp != nil {
 			for _, en := range sp.Ensures {
 				t, err := env.evalBool(en.Expr)
@@ -345,12 +350,87 @@ func runEncoding(e *Enc, fn *ssa.Function, props []string) {
 			o.Cover = true
 		}
 	}
+	// frame clauses: decided on the computed write effects (transitive over callees)
+	if sp != nil && f.depth == 0 {
+		for _, fc := range sp.Frames {
+			if strings.HasPrefix(fc.Text, "region ") {
+				// backing arrays of slices: decided by the region analysis
+				pats := strings.Fields(fc.Text)[1:]
+				hit := regionPatternHit(P.regions().written(fn), pats)
+				o := &Oblig{Name: e.Key + "#frame[preserves " + fc.Text + "]", Kind: "frame", Props: fc.Props, Func: e.Key, Pos: fmt.Sprintf("%s:%d", filepath.Base(sp.File), fc.Line), Reach: tTrue, Goal: tFalse, enc: e}
+				if len(hit) == 0 {
+					o.Result = &SolveResult{Status: "unsat", Backend: "effects-analysis"}
+				} else {
+					o.Result = &SolveResult{Status: "unknown", Backend: "effects-analysis", Output: "may write elements of: " + strings.Join(hit, ", ")}
+				}
+				e.obligs = append(e.obligs, o)
+				continue
+			}
+			ef := P.effectsOf(fn, e.U)
+			var hit []string
+			pats := strings.Fields(fc.Text)
+			if ef.All {
+				hit = append(hit, "<anything: "+ef.Why+">")
+			}
+			for fam := range ef.Fams {
+				if strings.HasPrefix(fam, "L.") || fam == "Iter.pos" {
+					continue
+				}
+				for _, pat := range pats {
+					if globMatch(pat, fam) {
+						hit = append(hit, fam)
+					}
+				}
+			}
+			sort.Strings(hit)
+			o := &Oblig{Name: e.Key + "#frame[preserves " + fc.Text + "]", Kind: "frame", Props: fc.Props, Func: e.Key, Pos: fmt.Sprintf("%s:%d", filepath.Base(sp.File), fc.Line), Reach: tTrue, Goal: tFalse, enc: e}
+			if len(hit) == 0 {
+				o.Result = &SolveResult{Status: "unsat", Backend: "effects-analysis"}
+			} else {
+				o.Result = &SolveResult{Status: "unknown", Backend: "effects-analysis", Output: "may write: " + strings.Join(hit, ", ")}
+			}
+			e.obligs = append(e.obligs, o)
+		}
+	}
 	// unused loop specs / anchors are failed obligations (the contract no longer covers the code)
 	if sp != nil {
+		for _, a := range sp.Sites {
+			if !a.Used {
+				e.addOblig("resolve", "site "+a.Name+" = "+a.Anchor, f.props, sp.File, tTrue, tFalse)
+			}
+		}
+		for _, a := range sp.Asserts {
+			if !a.Used {
+				e.addOblig("resolve", "assert at "+a.Anchor, f.props, sp.File, tTrue, tFalse)
+			}
+		}
 		for _, ls := range sp.Loops {
 			if !ls.Used {
 				e.addOblig("resolve", "loop "+ls.Header, f.props, fmt.Sprintf("%s:%d", sp.File, ls.Line), tTrue, tFalse)
 			}
 		}
 	}
+}
+
+// globMatch: '*' matches any run of characters.
+func globMatch(pat, s string) bool {
+	if pat == "*" {
+		return true
+	}
+	parts := strings.Split(pat, "*")
+	if len(parts) == 1 {
+		return pat == s
+	}
+	if !strings.HasPrefix(s, parts[0]) {
+		return false
+	}
+	s = s[len(parts[0]):]
+	for i := 1; i < len(parts)-1; i++ {
+		k := strings.Index(s, parts[i])
+		if k < 0 {
+			return false
+		}
+		s = s[k+len(parts[i]):]
+	}
+	return strings.HasSuffix(s, parts[len(parts)-1])
 }
